@@ -23,5 +23,8 @@ func init() {
 		rules.AlwaysAllowedParity(p, r, "C03-d")
 		rules.FirstMatchLoops(p, r)
 		r.Floor("C03-a", 50)
+		rules.ListEvalSiblingConditions(p, r, "C03-e")
+		rules.CacheWriteDiscipline(p, r, "C03-cache-store")
+		rules.CacheKeyShape(p, r, "C03-cache-key")
 	})
 }
